@@ -440,6 +440,8 @@ def toEventsSF (ls : List Line) : List (Option SchedFromLife.Ev × String) :=
     | "fire.stopped" => comp 1
     | "fire.error" => comp 2
     | "sf.store" => ev (.store t true)
+    -- sthrow=1: the copy / move of the value throws; the model's `store t false` = std::terminate
+    | "lt.storethrow" => ev (.store t false)
     | "sf.conn" => ev (.conn t true)
     | "sf.sstart" => ev (.sstart t)
     | "sf.sopdtor" => ev (.reset t)
@@ -462,7 +464,10 @@ def monitorsSF (c : Case) (ls : List Line) : List String :=
   let m0 := if ls.any (·.site == "life.touch-after-release") then
       ["the schedule_from operation state was accessed after the downstream completion destroyed it (touch after release; guard fault)"]
     else if ls.any (·.site == "life.segv") then ["segmentation fault outside the guarded operation state"] else []
-  let m1 := if c.status == "ok" then [] else [s!"run ended with status '{c.status}'"]
+  let m1 := if c.status == "ok" then [] else
+    if ls.any (·.site == "lt.storethrow") then
+      [s!"run ended with status '{c.status}': an exception thrown while storing the predecessor's values terminated the process (set_value_predecessor_sender is noexcept without try/catch); the composition denotes set_error with that exception"]
+    else [s!"run ended with status '{c.status}'"]
   let m2 := if f0.length > 1 || f1.length > 1 then ["harness: predecessor / scheduler completed twice"] else []
   let want : Option (String × Int) := match f0.head?, f1.head? with
     | none, _ => none
@@ -537,6 +542,8 @@ def runSF (c : Case) (ls : List Line) : String :=
          else if !resOk then "final MISMATCH: model result is not the denoted completion"
          else if (List.range c.threads.length).all (fun t => s.pc t == .fin) then "final ok"
          else "final MISMATCH: run ended but model threads are not finished")
+      else if c.status == "abort" then
+        (if s.aborted then "final aborted-as-modelled" else "final MISMATCH: abort not modelled")
       else s!"final status {c.status}"
     s!"case {c.id} accept {evs.length} ; {fin} ; {monS}"
 
